@@ -2,7 +2,7 @@ from vdriver import U
 
 PROPERTY = {
     "level": "proof",
-    "explanation": "bit reversal, byte-order accessors, sqrt fast path and Newton start value, gcd termination are loop-free or loop-contract proofs over all 2^32/2^64 inputs; lcm consults the full-width gcd of exactly its arguments (callee replaced by contract, all argument pairs); sqrt end-to-end (small arguments and the neighbourhoods of perfect squares 2^k +- j at every magnitude) and gcd/lcm divisibility are bounded stand-ins",
+    "explanation": "bit reversal, byte-order accessors, sqrt fast path and Newton start value, gcd termination, gcd == 0 only for two zeros, gcd <= max(a, b) and gcd(0, b) == b are loop-free or loop-contract proofs over all 2^32/2^64 inputs; lcm consults the full-width gcd of exactly its arguments (callee replaced by contract, all argument pairs); sqrt end-to-end (small arguments and the neighbourhoods of perfect squares 2^k +- j at every magnitude) and gcd/lcm divisibility are bounded stand-ins",
     "trusted_base": ["cbmc 6.11.0 (goto-cc C front end, DFCC loop-contract instrumentation, bit-precise SAT back end)",
                      "machine model LP64 little endian; __builtin_clz/__builtin_clzl as modelled by cbmc"],
     "assumptions": [
@@ -16,6 +16,8 @@ PROPERTY = {
 SQRT_INV32 = "x1 >= 1 && x1 <= 65536 && x / (x1 + 1) < x1 + 1"
 SQRT_INV64 = "x1 >= 1 && x1 <= 4294967296 && x / (x1 + 1) < x1 + 1"
 
+# gcd: "not both zero" and "bounded by the larger argument" are preserved by a, b := b, a % b (a % b < b <= max)
+GCD_INV = "((a != 0 || b != 0) == (verif_gcd_nz != 0)) && a <= verif_gcd_max && b <= verif_gcd_max && (verif_gcd_nz != 0 || verif_gcd_max == 0) && (verif_gcd_a0z == 0 || (a == 0 && b == verif_gcd_b0) || (a == verif_gcd_b0 && b == 0))"
 RP = {"prog": "c19.c", "sources": ["a.c", "math.c"]}
 
 UNITS = [
@@ -33,6 +35,12 @@ UNITS = [
     U("gcd32", "isqrt.c", "h_gcd32", replay=RP, functions=["a_u32_gcd"],
       loops={"a_u32_gcd": [{"loop_id": 0, "expect": "while (b)", "invariants": "1 == 1", "decreases": "b", "assigns": "a, b"}]},
       key=["loop_decreases|decreases"]),
+    U("gcd32_range", "isqrt.c", "h_gcd32_range", replay=RP, functions=["a_u32_gcd"],
+      loops={"a_u32_gcd": [{"loop_id": 0, "expect": "while (b)", "invariants": GCD_INV, "decreases": "b", "assigns": "a, b"}]},
+      key=["zero only for two zeros", "larger argument"]),
+    U("gcd64_range", "isqrt.c", "h_gcd64_range", replay=RP, functions=["a_u64_gcd"],
+      loops={"a_u64_gcd": [{"loop_id": 0, "expect": "while (b)", "invariants": GCD_INV, "decreases": "b", "assigns": "a, b"}]},
+      key=["zero only for two zeros", "larger argument"]),
     U("gcd64", "isqrt.c", "h_gcd64", replay=RP, functions=["a_u64_gcd"],
       loops={"a_u64_gcd": [{"loop_id": 0, "expect": "while (b)", "invariants": "1 == 1", "decreases": "b", "assigns": "a, b"}]},
       key=["loop_decreases|decreases"]),
@@ -50,6 +58,8 @@ UNITS = [
       key=["consults the 64-bit gcd"], timeout=120),
     U("lcm32_protocol", "isqrt.c", "h_lcm32_protocol", replay=RP, functions=["a_u32_lcm"], replace=["a_u64_gcd/contract_a_u64_gcd", "a_u32_gcd/contract_a_u32_gcd"],
       key=["consults the gcd"], timeout=120),
+    U("lcm32_scaled", "isqrt.c", "h_lcm32_scaled", replay=RP, level="B", bound="a = A*2^15, b = B*2^15, 0 < A, B < 32, Euclid loop unwound completely (12)", unwind=12,
+      defines=["GCD_BOUND=32u"], functions=["a_u32_gcd", "a_u32_lcm"]),
     U("lcm64_wide", "isqrt.c", "h_lcm64_wide", replay=RP, level="B", bound="a = A*2^33, b = B, 0 < A, B < 32, Euclid loop unwound completely (12)", unwind=12,
       defines=["GCD_BOUND=32u"], functions=["a_u64_gcd", "a_u64_lcm"]),
     U("sqrt64_squares_above", "isqrt.c", "h_sqrt64_squares", replay=RP, level="B", bound="x in {n^2 - 1, n^2, n^2 + 2n} for n = 2^k + j, j < 4, all k", functions=["a_u64_sqrt"], defines=["BELOW=0"],
